@@ -85,6 +85,14 @@ func runEntry(entry string, b []byte) (res string) {
 	case "SU":
 		_, err := jschema.New("schema", c).UsedUserTypes()
 		return describeErr(err)
+	case "ST":
+		// the text is a user type of a schema that refers to it: what the root's Check() reports about the type
+		// refers to the type's text
+		root := jschema.New("schema", "{\n  \"k\": @a\n}")
+		if err := root.AddType("@a", jschema.New("@a", c)); err != nil {
+			return describeErr(err)
+		}
+		return describeErr(root.Check())
 	}
 	return "badcase"
 }
